@@ -68,7 +68,7 @@ func httpShape(g *vkit.Rand) (method, path string, q *Req) {
 }
 
 func endToEnd(r *vkit.R) {
-	n := r.N(300, 5000)
+	n := r.N(1200, 8000)
 	const K = 5
 	var stubs []*bed.Stub
 	var eps []string
@@ -185,13 +185,21 @@ func endToEnd(r *vkit.R) {
 		}
 		for k := 0; k < 3; k++ {
 			method, path, q := httpShape(g)
+			if k == 2 || g.Chance(0.25) {
+				// request lines outside the basic templates; attributes by the Kubernetes request-info convention
+				if m2, p2, kind, q2 := wideShape(g); q2 != nil {
+					method, path, q = m2, p2, q2
+					r.Count("e2e_wide_shapes", 1)
+					r.Count("e2e_wide_"+kind, 1)
+				}
+			}
 			ref := refPolicies(ps, q)
 			// same attribute tuple twice with different irrelevant inputs: the decision must be the same
 			for variant := 0; variant < 2; variant++ {
 				idn++
 				id := fmt.Sprintf("c01-%d", idn)
 				var body *bytes.Reader
-				if variant == 1 && method != "GET" {
+				if variant == 1 && method != "GET" && method != "HEAD" {
 					body = bytes.NewReader(g.Bytes(g.Range(1, 200)))
 				} else {
 					body = bytes.NewReader(nil)
@@ -238,7 +246,7 @@ func endToEnd(r *vkit.R) {
 					}
 				case ref >= 0 && got != ref:
 					r.Violation("C01/e2e/wrong-policy/"+e2eDiverge(ps, q, minNonNeg(got, ref)), fmt.Sprintf("handled under policy %d, first matching policy is %d: %s %s as %+v (status %d)", got, ref, method, path, *q, resp.Status), w)
-				case ref < 0 && (resp.Status < 400 || !bytes.Contains(resp.Body, []byte(`"kind":"Status"`))):
+				case ref < 0 && (resp.Status < 400 || (method != "HEAD" && !bytes.Contains(resp.Body, []byte(`"kind":"Status"`)))): // a HEAD answer has no body
 					r.Violation("C01/e2e/no-match-not-rejected", fmt.Sprintf("no policy matches but the client got status %d body %.80q", resp.Status, resp.Body), w)
 				}
 				if i == 0 && k == 0 && variant == 0 {
